@@ -109,6 +109,16 @@ def op_resolve(text: str) -> str:
 OPS = {"render": op_render, "edit": op_edit, "resolve": op_resolve}
 
 
+def tree_fingerprint() -> str:
+    """(path, mtime, size) of every source file of the package under test: the in-process code, the
+    subprocesses and the translator must all see the same tree"""
+    h = hashlib.sha1()
+    for p in sorted((fw.REPO / "nix_manipulator").rglob("*.py")):
+        st = p.stat()
+        h.update(f"{p}:{st.st_mtime_ns}:{st.st_size};".encode())
+    return h.hexdigest()
+
+
 def digest(s: str) -> str:
     return hashlib.sha1(s.encode("utf-8", "surrogatepass")).hexdigest()[:16]
 
@@ -377,9 +387,22 @@ def determinism(ctx: fw.Ctx, docs: list[str], n_configs: int):
             ctx.count("subprocess-configs")
             for i, (d, e) in enumerate(zip(res["out"], expected)):
                 if d != e:
+                    # fetch the other process's text (same seed, the document alone) for the replay file
+                    code = ("import sys; sys.path.insert(0, %r); from harness.props.c15 import OPS; "
+                            "sys.stdout.write(OPS[%r](%r))" % (str(fw.VERIF), items[i][0], items[i][1]))
+                    try:
+                        alone = subprocess.run([sys.executable, "-c", code], cwd=str(cwd),
+                                               env=dict(env_base, PYTHONHASHSEED=seed), capture_output=True,
+                                               text=True, timeout=300).stdout
+                    except subprocess.TimeoutExpired:
+                        alone = "<timeout>"
+                    again = OPS[items[i][0]](items[i][1])
                     ctx.fail({"clause": "hashseed-cwd", "op": items[i][0]},
                              {"doc": items[i][1], "op": items[i][0], "hashseed": seed, "cwd_depth": str(cwd),
-                              "order": orderflag, "expected_digest": e, "got_digest": d},
+                              "order": orderflag, "expected_digest": e, "got_digest": d,
+                              "this_process_first": serial[i], "this_process_again": again,
+                              "other_process_alone": alone, "other_process_alone_digest": digest(alone),
+                              "this_process_hash_randomization": os.environ.get("PYTHONHASHSEED", "unset (random)")},
                              f"{items[i][0]} of a document differs in a process with PYTHONHASHSEED={seed}, "
                              f"cwd={cwd}, order={orderflag}")
                     break
@@ -739,6 +762,7 @@ def run(ctx: fw.Ctx):
         "(c) parser slot, the two source context variables, the resolution registry; document heaps are owned "
         "by one thread"
     )
+    fp0 = tree_fingerprint()
     ex = static_part(ctx)
     quick = ctx.quick
     docs = doc_stream(ctx, 1500 if quick else 40000, 4 if quick else 6)
@@ -753,6 +777,10 @@ def run(ctx: fw.Ctx):
     determinism(ctx, det_docs, 4 if quick else 32)
     threads_run(ctx, docs[: 61 + (600 if quick else 6000)], 8 if quick else 16, 200 if quick else 5000)
     sched_correspondence(ctx, 120 if quick else 1500, 40, docs[:120])
+    if tree_fingerprint() != fp0:
+        # the code imported in this process is no longer the code on disk (subprocesses and the
+        # translator saw another tree): nothing observed on this run can be trusted either way
+        raise fw.Infra(f"{fw.REPO}/nix_manipulator changed while the check was running; run again")
 
 
 def search(ctx: fw.Ctx):
